@@ -16,8 +16,14 @@ COMBOS = [("euclidean", "dense32"), ("cosine", "csr"), ("manhattan", "dense32"),
 
 
 def kernel_pipeline(res, rng, n_cases):
-    for c in range(n_cases):
+    for c in range(n_cases + 3):
         cfg = dk.nnd_case(rng, small=(c % 2 == 0)); cfg["sparse"] = (c % 3 == 2)
+        if c >= n_cases:
+            # the stop test `c <= delta * n_neighbors * n` counts ROWS: sparse data with several stored values per row, a delta
+            # large enough for the test to decide, and enough iterations for it to matter
+            cfg.update({"sparse": True, "n": int(rng.choice([90, 160])), "k": int(rng.choice([3, 5])), "dim": 5, "spread": 6,
+                        "delta": float(rng.choice([0.02, 0.05, 0.1])), "n_iters": 10, "max_candidates": int(rng.choice([5, 10])),
+                        "init": "none", "tree": bool(rng.integers(2))})
         il, ll, _ = dk.run_nnd_pair(cfg, True)
         ih, lh, _ = dk.run_nnd_pair(cfg, False)
         ml, mh = run_driver([ll, lh])
@@ -82,7 +88,9 @@ def big_case(res, rng, kind):
     if kind == "csr":
         import scipy.sparse as sp
         X = sp.csr_matrix(X * (rng.random(X.shape) < 0.8))
-    cfg = {"tree_init": bool(rng.integers(2)), "seed": int(rng.integers(10 ** 6)), "n_iters": int(rng.choice([2, 4]))}
+    # random initialisation: every row's list is built by the local joins alone, so a vertex whose candidates are skipped
+    # (block boundaries) or a lost change count shows in thousands of rows; tree initialisation hides most of it
+    cfg = {"tree_init": False, "seed": int(rng.integers(10 ** 6)), "n_iters": int(rng.choice([3, 4]))}
     out = {}
     for low in (True, False):
         idx = NNDescent(X, n_neighbors=k, random_state=cfg["seed"], low_memory=low, tree_init=cfg["tree_init"],
